@@ -71,6 +71,23 @@ def run(ctx, rep):
     from props import c03_mir, c11
     c03_mir.run(ctx, rep)
     mal_set_discipline(ctx, rep)
+    # "the element-count byte equals the number of elements that follow": every count byte is calculated from the very collection
+    # that is written after it, with nothing in between (`calc = v.len() as u8`; a clamp or another collection breaks it) - the
+    # count<->calc pairing of the symmetry rules (R1.2, shared with C01), here as R3.7
+    from props import symmetry
+    before = len(rep.instances)
+    for (crate, modpath, file, it) in symmetry.binrw_structs(ctx, ("insim", "insim_core")):
+        if it.get("generics"):
+            continue
+        symmetry.check_struct(ctx, rep, "R3.7", it["name"], modhint=modpath)
+    keep = []
+    for i in rep.instances[before:]:
+        if i["rule"] == "R3.7.2":
+            i["rule"] = "R3.7"
+            i["key"] = i["key"].replace("R3.7.2:", "R3.7:")
+            keep.append(i)
+    rep.instances[before:] = keep
+    rep.floor("R3.7", 12)
     # the variable text tail is padded by helper arithmetic: its length rules (exact width / bounded and a multiple of the
     # alignment) are C11's R11.3; R11.4 (terminator) is not part of this property
     before = len(rep.instances)
